@@ -133,7 +133,7 @@ func TestC06(t *testing.T) {
 			}
 		}
 		one(base) // no injected fault: coercion failures only
-		kinds := []string{"err", "group", "ext", "wgroup", "lext"}
+		kinds := []string{"err", "group", "ext", "wgroup", "lext", "valerr"}
 		mkFault := func(site string, label string) hx.Fault {
 			n, f := parseSite(site)
 			fl := hx.Fault{Node: n, Field: f, Kind: rapid.SampledFrom(kinds).Draw(rt, label+"kind")}
